@@ -644,7 +644,9 @@ def main(ck, only_case=None, only_req=None):
     if dtrue is not None and dtrue < distmax and not (deep_gd and (gd_ccd or pair in (('capsule', 'capsule'), ('capsule', 'box')))):
       if abs(d12 - dtrue) > tgd:
         gd_fail('mj_geomDistance %.17g, true signed distance %.17g' % (d12, dtrue), 'gd-true')
-    if ncon and not deep and not deep_gd:
+    if ncon and not deep and not deep_gd and not (is_ccd and touching):
+      # (touching = the margin-inflated shapes the collider works on are within the touching band, by the input rule
+      #  |delta - (margin+gap)| <= TOUCH_BAND*ccd_tolerance or by the contact itself: listed finding, contact not asserted)
       err = abs(d12 - dmin)
       if pair == ('box', 'box'):
         ok = sat > 0 or (sat <= 0 and -dmin >= -d12 - tgd and -dmin <= -d12 * BOXBOX_FUDGE + tgd)
